@@ -3,7 +3,7 @@ import os, subprocess
 import vlib
 from vlib import Undecided
 
-from checks.drawfam import M, sweep, decide_by_sweep
+from checks.drawfam import M, sweep, decide_by_sweep, count_sweep as drawfam_count
 
 
 def run(ctx):
@@ -13,7 +13,7 @@ def run(ctx):
                 "non-trivial when its bound is not 1; distinct = distinct (bound, tape) pairs. Sweeps present all 2^32 raw words.")
     # (a) the specification itself
     ctx.model_check("MC_BigNat", "MC_BigNat.cfg", "BigNat == native arithmetic (limb base 8)", constants={"MaxV": 120 if quick else 500})
-    for w in ([6] if quick else [4, 6, 8, 10]):
+    for w in ([6] if quick else [4, 6, 8]):   # width 8: ~10 min; width 10 does not finish in 25 min here
         ctx.model_check("Draw", "MC_Draw.cfg", "every bound and every raw word at width %d: uniform fibres, >half accepted, reject is fresh" % w,
                         constants={"W": w}, workers=vlib.NCPU)
     ok, txt = ctx.apalache("DrawLemma")
@@ -52,6 +52,7 @@ def run(ctx):
     drawfam_opaque = __import__("checks.drawfam", fromlist=["opaque_reads"]).opaque_reads
     drawfam_opaque(ctx, random.Random(ctx.seed), 65536 if quick else 262144)
     # (c) the counting statement measured on the real code
+    drawfam_count(ctx, 3 << 30, 1, "a bound above 2^31 (a quarter of the raw values must be rejected)")
     plan = [(62, 1, "alphabet size of letters+digits"), (64, 1, "power of two (mask path)"), (18325, 1, "shipped word list size"),
             (62, 2, "continuation after a rejected word")]
     if not quick:
@@ -61,6 +62,10 @@ def run(ctx):
                  (3 << 30, 2, "continuation, quarter rejected")]
     # deviations found above are decided exactly, smallest bounds first
     extra = 0
+    big = [n for n in sorted(deviating) if n > (1 << 26)]
+    for n in big[:2] + big[-1:]:          # too large for a per-result histogram in the quick tier: decided by the count condition
+        for d in sorted(deviating[n] | {1}):
+            drawfam_count(ctx, n, d, "decides a deviation seen in directed draws at a large bound")
     for n in sorted(deviating):
         if n < 2 or extra >= 3 or (quick and n > (1 << 26)):
             continue
